@@ -48,6 +48,11 @@ check("C13", "exploration",
       TB + " At quiescence all goroutines are durably blocked, so a pending-but-enabled call is a missed wake-up, not timing. Where the runtime (not the seed) chooses among several enabled outcomes, the scenario avoids enabling two at once or records only the class.",
       "deterministic simulation with fault injection: seeded stimulus schedules against blocked callers, reference model of a blocking endpoint evaluated at every quiescence", "DESIGN.md 8/C13")
 
+check("C17", "exploration",
+      "Seeded search over deadline sequences, concurrent submitters, worker counts, self-re-submitting tasks and Close points against the real TimedSched on the fake clock, with yield points in Put / prepend / workers parked and released in tape order so that timer expiries and task arrivals are ordered both ways; per-task exactly-once, never-early and lateness-bound oracle, and a goroutine census after Close.",
+      TB + " The asynctimerchan=1 half of the quantifier cannot be simulated (synctest refuses it) and is not covered.",
+      "deterministic simulation with fault injection: real scheduler on a fake clock, seeded deadline patterns and yield-point interleavings, per-task execution oracle", "DESIGN.md 8/C17")
+
 NOTYET = "check not built yet in this session (work in progress; see DESIGN.md section 8 for the design)"
 for p in props:
     if p["id"] not in CHECKS:
